@@ -57,6 +57,8 @@ class Contract:
     props = ()
     self_cls = None      # qualified class name when the function is a method
     always_raises = False
+    allow_any_exception = False    # exceptions not listed in raises() are allowed (state-after-exception clauses still apply)
+    callee_view = False
 
     def __init__(self, reg, tier="quick"):
         self.reg, self.tier = reg, tier
@@ -76,6 +78,10 @@ class Contract:
 
     def frame(self, a, p, kind, pre):
         return []
+
+    def callee_may_raise(self, a):
+        """callee view only: exceptions the function MAY raise (no 'must' obligation in verify())"""
+        return {}
 
     def result(self, a, p):
         return fresh("result", Val)
@@ -159,7 +165,7 @@ class Contract:
             p.obls.append(("pre-callee.%s.requires%d@%d" % (self.short, i, node.lineno), r, node.lineno, list(p.pc), list(p.facts)))
         out = []
         cur = p
-        for exc, cond in self.raises(a).items():
+        for exc, cond in list(self.raises(a).items()) + list(self.callee_may_raise(a).items()):
             if cur is None:
                 break
             pr, cur = ex.split(cur, cond)
@@ -168,9 +174,14 @@ class Contract:
                 out.append((pr, Raise(exc, "raised by %s per its contract" % self.short)))
         if cur is not None and not self.always_raises:
             r = self.result(a, cur)
-            for name, f in self.ensures(a, r, None):
-                cur.facts.append(f)
+            pre = _snapshot(cur)
             self.apply_effects(a, cur, "return")
+            self.callee_view, self.callee_pre = True, pre
+            try:
+                for name, f in self.ensures(a, r, cur):
+                    cur.facts.append(f)
+            finally:
+                self.callee_view = False
             out.append((cur, r))
         return out
 
@@ -230,6 +241,7 @@ class Contract:
                     continue
                 if kind == "return":
                     n_return += 1
+                    self.verify_pre = snapshot
                     for name, goal in self.ensures(a, v, p):
                         add("ensures." + name, goal, "post")
                     for exc, cond in rz.items():
@@ -240,7 +252,7 @@ class Contract:
                     if exc in rz:
                         add("raises.only-when:" + exc, rz[exc], "raises",
                             text="%s raised only under its documented condition (%s)" % (exc, v.info))
-                    else:
+                    elif not self.allow_any_exception:
                         add("raises.none:" + exc, z3.BoolVal(False), "raises",
                             text="no %s is ever raised (%s)" % (exc, v.info))
                 for name, goal in self.frame(a, p, kind, snapshot):
